@@ -1,7 +1,153 @@
 import ChiaModel.Model.Generator
 import ChiaModel.Props.C07
 import ChiaModel.Props.C11
+import ChiaModel.Lemmas.FastPaths
 /-
 C09 — theorems that carry this property are listed in bin/props.py; the statements specific to the
 generator-path models that are still open are recorded there under `open`.
 -/
+namespace ChiaModel.C09
+open ChiaModel ChiaModel.Cond ChiaModel.Gn
+
+/-- the native path's size cost (either mode) -/
+def nativeBase (p : Params) (g : GenInput) : Nat :=
+  (if hasFlag p.flags Gen.flagInternedGenerator then internedVbytes g.prog else g.len) * p.costPerByte
+
+/-- decomposition of an accepting native run (any flags) -/
+theorem native_ok_gen {p : Params} {g : GenInput} {genRun : RunRes} {puz : Nat → RunRes} {L : Nat} {bn : Bundle}
+    (h : native p g genRun puz L = .ok bn) :
+    ¬(simpleGen p.flags ∧ g.nrefs > 0) ∧ nativeBase p g ≤ L ∧
+    ∃ gc allSpends args retN st left, genRun = some (gc, .pair allSpends args) ∧ gc ≤ L - nativeBase p g ∧
+      allExtract3 allSpends = true ∧
+      nativeLoop { flags := p.flags, mempool := false, pkOk := p.pkOk } puz allSpends 0 { executionCost := gc } {}
+        (spendLimit p.flags) (L - nativeBase p g - gc) = .ok ((retN, st), left) ∧
+      bn.spends = retN.spends := by
+  unfold native at h
+  split at h
+  · cases h
+  simp only at h
+  cases h1 : subtractCost L ((if hasFlag p.flags Gen.flagInternedGenerator = true then internedVbytes g.prog else g.len) * p.costPerByte) with
+  | error e => rw [h1] at h; cases h
+  | ok c1 =>
+    rw [h1] at h; simp only at h
+    split at h
+    · cases h
+    split at h
+    · cases h
+    rename_i hr
+    cases h2 : runWithLimit genRun c1 with
+    | error e => rw [h2] at h; cases h
+    | ok r =>
+      obtain ⟨gc, gout⟩ := r
+      rw [h2] at h; simp only at h
+      cases h3 : subtractCost c1 gc with
+      | error e => rw [h3] at h; cases h
+      | ok c2 =>
+        rw [h3] at h; simp only at h
+        cases gout with
+        | atom b => simp only [first] at h; cases h
+        | pair allSpends args =>
+          simp only [first] at h
+          split at h
+          · cases h
+          rename_i hex
+          cases h4 : nativeLoop { flags := p.flags, mempool := false, pkOk := p.pkOk } puz allSpends 0 { executionCost := gc } {}
+              (spendLimit p.flags) c2 with
+          | error e => rw [h4] at h; cases h
+          | ok q =>
+            obtain ⟨⟨retN, st⟩, left⟩ := q
+            rw [h4] at h; simp only at h
+            cases h5 : finishBundle { flags := p.flags, mempool := false, pkOk := p.pkOk } p.sigOk retN st with
+            | error e => rw [h5] at h; cases h
+            | ok bn0 =>
+              rw [h5] at h; simp only at h
+              injection h with h
+              obtain ⟨a1, a2⟩ := C07.subtractCost_ok h1
+              obtain ⟨a3, a4⟩ := C07.subtractCost_ok h3
+              obtain ⟨b1, b2⟩ := runWithLimit_ok h2
+              subst a2; subst a4
+              have hsp : bn0.spends = retN.spends := by
+                unfold finishBundle at h5
+                simp only [postProcess_block { flags := p.flags, mempool := false, pkOk := p.pkOk } rfl] at h5
+                cases hv : validateConditions retN st with
+                | error e => rw [hv] at h5; cases h5
+                | ok u =>
+                  rw [hv] at h5; simp only at h5
+                  split at h5
+                  · cases h5
+                  · injection h5 with h5; rw [← h5]
+              exact ⟨hr, a1, gc, allSpends, args, retN, st, left, b1, b2, by simpa using hex, h4, by rw [← h, ← hsp]⟩
+
+/-- **Removals and additions of the trusted fast path.**  If `run_block_generator2` accepts a generator
+under a limit `L ≤ MAX_BLOCK_COST_CLVM` (and the generator's output consists of byte strings), then
+`additions_and_removals` succeeds on it, and
+
+* `removals_spec`: its removals are exactly the accepted spends, in order, as
+  (coin id, parent id, puzzle hash, amount);
+* `additions_spec`: its additions are exactly the created coins of all accepted spends, in spend order and
+  within a spend in condition order, each as (parent = the spend's coin id, puzzle hash, amount) with the
+  same hint that full validation recorded (present iff the first memo is a non-empty atom of ≤ 32 bytes). -/
+theorem additions_removals_spec (p : Params) (g : GenInput) (genRun : RunRes) (puz : Nat → RunRes) (L : Nat) (b : Bundle)
+    (hL : L ≤ Gen.maxBlockCostClvm) (hab : ∀ c out, genRun = some (c, out) → out.AllBytes)
+    (h : native p g genRun puz L = .ok b) :
+    additionsAndRemovals p g genRun puz = some (b.spends.flatMap spendAdds, b.spends.map rem) := by
+  obtain ⟨hr, hbase, gc, allSpends, args, retN, st, left, hgen, hgc, hex, hloop, hsp⟩ := native_ok_gen h
+  obtain ⟨news, hn, htr⟩ := nativeLoop_trace _ puz allSpends 0 _ _ _ _ _ _ _ hloop
+  simp only [List.nil_append] at hn
+  have hbytes := hab gc _ hgen
+  simp only [Sexp.AllBytes] at hbytes
+  unfold additionsAndRemovals
+  rw [if_neg hr, hgen]
+  simp only
+  rw [if_neg (by omega), if_neg (by simp [hex])]
+  rw [addRemLoop_of_trace puz news allSpends 0 _ _ htr hbytes.1 (by omega), hsp, hn]
+
+/-- `removals_spec` -/
+theorem removals_spec (p : Params) (g : GenInput) (genRun : RunRes) (puz : Nat → RunRes) (L : Nat) (b : Bundle)
+    (hL : L ≤ Gen.maxBlockCostClvm) (hab : ∀ c out, genRun = some (c, out) → out.AllBytes)
+    (h : native p g genRun puz L = .ok b) :
+    ∃ adds rems, additionsAndRemovals p g genRun puz = some (adds, rems) ∧
+      rems = b.spends.map (fun sp => (sp.coinId, sp.parentId, sp.puzzleHash, sp.coinAmount)) :=
+  ⟨_, _, additions_removals_spec p g genRun puz L b hL hab h, rfl⟩
+
+/-- `additions_spec` -/
+theorem additions_spec (p : Params) (g : GenInput) (genRun : RunRes) (puz : Nat → RunRes) (L : Nat) (b : Bundle)
+    (hL : L ≤ Gen.maxBlockCostClvm) (hab : ∀ c out, genRun = some (c, out) → out.AllBytes)
+    (h : native p g genRun puz L = .ok b) :
+    ∃ adds rems, additionsAndRemovals p g genRun puz = some (adds, rems) ∧
+      adds = b.spends.flatMap (fun sp => sp.createCoin.map (fun nc => ((sp.coinId, nc.ph, nc.amount), nc.hint))) :=
+  ⟨_, _, additions_removals_spec p g genRun puz L b hL hab h, rfl⟩
+
+/-- **Lookup.**  For every spend of an accepted block, `get_puzzle_and_solution_for_coin` on the generator's
+output, asked for that coin (parent id, puzzle hash, amount), succeeds and returns a puzzle whose tree hash is
+the coin's puzzle hash (the first spend of the list matching parent, amount and puzzle hash). -/
+theorem lookup_spec (p : Params) (g : GenInput) (genRun : RunRes) (puz : Nat → RunRes) (L : Nat) (b : Bundle)
+    (h : native p g genRun puz L = .ok b) :
+    ∃ gc out, genRun = some (gc, out) ∧ ∀ sp ∈ b.spends, ∃ puzzle solution,
+      getPuzzleAndSolution out sp.parentId sp.puzzleHash sp.coinAmount = some (puzzle, solution) ∧
+      Sexp.treeHash puzzle = sp.puzzleHash := by
+  obtain ⟨_, _, gc, allSpends, args, retN, st, left, hgen, _, _, hloop, hsp⟩ := native_ok_gen h
+  obtain ⟨news, hn, htr⟩ := nativeLoop_trace _ puz allSpends 0 _ _ _ _ _ _ _ hloop
+  simp only [List.nil_append] at hn
+  refine ⟨gc, _, hgen, ?_⟩
+  intro sp hsp'
+  rw [hsp, hn] at hsp'
+  exact go_of_trace puz news allSpends 0 _ htr sp hsp'
+
+/-! ## non-vacuity of the hypotheses -/
+namespace Witness
+open ChiaModel.C07.Witness
+
+/-- the one-spend generator of C07's witness is accepted by the native path under a limit below
+MAX_BLOCK_COST_CLVM and its output consists of byte strings -/
+example : ∃ b, native p0 g0 genRun0 puz0 1000000 = .ok b := ⟨_, rfl⟩
+example : (1000000 : Nat) ≤ Gen.maxBlockCostClvm := by decide
+example : ∀ c out, genRun0 = some (c, out) → out.AllBytes := by
+  intro c out h
+  injection h with h; injection h with _ h
+  subst h
+  simp [spend0, Sexp.ofList, Sexp.AllBytes, Sexp.nil, isBytes]
+
+end Witness
+
+end ChiaModel.C09
